@@ -465,16 +465,20 @@ def unsatcache_run_solver(text: str, path: FsPath, solver=None, timeout: float =
     return (out.split("\n", 1)[0].strip() if out else "err"), out
 
 
-def _with_refinement(body: str, path: FsPath, solver=None) -> str:
+def _with_refinement(body: str, path: FsPath, solver=None, timeout: float = 40.0) -> str:
     """What `solve_end_to_end` answers with the cache off: solve; a model that mentions the f_evm_ abstractions
-    is not trusted, the refined query decides."""
-    first, out = unsatcache_run_solver(f"(set-logic QF_AUFBV)\n{body}\n(check-sat)\n(get-model)\n", path, solver)
-    if first == "sat" and "f_evm_" in out:
-        refined = hsolve.refine(hsevm.SMTQuery(body, [])).smtlib
-        if refined != body:
-            first, out = unsatcache_run_solver(f"(set-logic QF_AUFBV)\n{refined}\n(check-sat)\n(get-model)\n",
-                                               path.with_suffix(".refined.smt2"), solver)
-    return first if first in ("sat", "unsat") else "unknown"
+    is not trusted, the refined query decides.  yices first; z3 is asked when yices gives up."""
+    first = "unknown"
+    for cmd in ([solver] if solver else [YICES, Z3BIN]):
+        first, out = unsatcache_run_solver(f"(set-logic QF_AUFBV)\n{body}\n(check-sat)\n(get-model)\n", path, cmd, timeout)
+        if first == "sat" and "f_evm_" in out:
+            refined = hsolve.refine(hsevm.SMTQuery(body, [])).smtlib
+            if refined != body:
+                first, out = unsatcache_run_solver(f"(set-logic QF_AUFBV)\n{refined}\n(check-sat)\n(get-model)\n",
+                                                   path.with_suffix(".refined.smt2"), cmd, timeout)
+        if first in ("sat", "unsat"):
+            return first
+    return "unknown"
 
 
 def unsatcache_oracle(rec: UnsatcacheRecorder, work: FsPath, tag: str, pool, only_hits: bool = False) -> None:
@@ -494,8 +498,11 @@ def unsatcache_oracle(rec: UnsatcacheRecorder, work: FsPath, tag: str, pool, onl
         if e["e"] == "core" and e["q"] in rec.qdata:
             k += 1
             e["k"] = k
-            named = rec.qdata[e["q"]]["query"].smtlib
-            body = named + "".join(f"(assert |{a}|)\n" for a in e["ids"])
+            qd = rec.qdata[e["q"]]
+            named = qd["query"].smtlib
+            # the assertions the core names, alone: their guards true, every other guard false (leaving the other
+            # guards free is equivalent, but yices-smt2 was measured to run > 5 min on such a query)
+            body = named + "".join(f"(assert |{a}|)\n" if a in e["ids"] else f"(assert (not |{a}|))\n" for a in qd["ids"])
             jobs[("c", k)] = pool.submit(_with_refinement, body, work / f"{tag}-c{k}.smt2")
     for (kind, n), fut in jobs.items():
         r = fut.result()
@@ -559,9 +566,10 @@ class UnsatcacheBatch:
                 evs.append({"e": "check", "q": e["q"], "hit": e["hit"], "nc": len({tuple(sorted(c)) for c in e["cores"]}),
                             "truth": rec.qdata[e["q"]].get("truth", "unknown")})
             elif k == "core":
-                evs.append({"e": "core", "q": e["q"] if e["q"] is not None else 0, "ids": e["ids"]})
+                evs.append({"e": "core", "q": e["q"] if e["q"] is not None else 0, "ids": e["ids"], "truth": e.get("truth", "unknown")})
                 m = cons_of.get(e["q"], {})
-                if e.get("truth") == "unsat" and all(i in m for i in e["ids"]):
+                # an oracle that gave up is not evidence against the core: the solver's word is taken (and counted)
+                if e.get("truth") in ("unsat", "unknown") and all(i in m for i in e["ids"]):
                     self._fam([m[i] for i in e["ids"]])
             elif k == "done":
                 evs.append({"e": "done", "q": e["q"] if e["q"] is not None else 0})
@@ -814,7 +822,8 @@ def unsatcache_case(case: UcCase, work: FsPath, pool, mutant: str | None = None,
             nontrivial.append(["hit", tno])
     res["stats"] = {
         "queries": len(rec.qdata), "unsat": sum(1 for q in rec.qdata.values() if q.get("truth") == "unsat"),
-        "oracle_unknown": sum(1 for q in rec.qdata.values() if q.get("truth") == "unknown"),
+        "oracle_unknown": sum(1 for q in rec.qdata.values() if q.get("truth") == "unknown")
+        + sum(1 for e in rec.events if e["e"] == "core" and e.get("truth") == "unknown"),
         "hits": sum(1 for e in rec.events if e["e"] == "check" and e["hit"]), "cores": cores, "gc": rec.gc_runs,
         "nontrivial": [list(x) for x in sorted({tuple(x) for x in nontrivial})],
         "times": [round(t1 - t0, 1), round(t2 - t1, 1), round(time.time() - t2, 1)],
